@@ -169,7 +169,7 @@ func modelCases(c *ctx) {
 	r := c.r
 	n := r.Pick(150, 2000)
 	for k := 0; k < n; k++ {
-		g := &gen{r: common.NewRand(r.Rnd.Uint64())}
+		g := &gen{r: common.NewRand(c.rnd.Uint64())}
 		r.Mark("case model %d", k)
 		{
 			v := disco.InfoQuery{Node: g.opt()}
